@@ -110,7 +110,8 @@ def main():
             ctx.overlay.close()
     # 6. evidence + verdict
     th = ctx.props["theorems"] if ctx.props else []
-    n_ok = len(th) if ctx.proof_ok() else 0
+    # one verdict: the evidence says "discharged" exactly when no proof violation was (or would have been) reported
+    n_ok = len(th) if (ctx.proof_ok() and not [v for v in ctx.violations if v["kind"] in ("proof", "harness", "build")]) else 0
     cov = {
         "obligations": max(1, len(th)),
         "discharged": n_ok,
